@@ -5,6 +5,7 @@ import os
 from vlib import *
 import pyed
 
+THOROUGH_ROUNDS = 4      # repetitions of the conformance part in the thorough tier (fresh random draws each)
 SMALL_ORDER_U = [0, 1, 325606250916557431795983626356110631294008115727848805560023387167927233504,
                  39382357235489614581723060781553021112529911719440698176882885853963445705823, P - 1, P, P + 1]
 
